@@ -235,7 +235,70 @@ def _callee(n: ast.AST) -> str:
     return ast.unparse(n)
 
 
-def _handler_body_ops(h: ast.ExceptHandler) -> List[str]:
+def _inline_helper(call: ast.Call, resolve) -> Optional[List[ast.stmt]]:
+    """Round 4: a handler body that calls a helper defined next to it (`self._error_value(msg, ex, tree)`, a private
+    method / staticmethod / classmethod of the same class or a module-level function of the same file) is followed BY
+    MEANING: the helper's body with its parameters replaced by the argument expressions of the call, so that the
+    operations the helper applies are collected exactly as if they were written in the handler (ONE level: a helper
+    calling a further helper keeps that call as an operation). None when the callee is not such a helper or the call
+    cannot be matched to its parameters (decorated helper, *args/**kwargs, nested defs, a rebinding of a parameter)."""
+    fd = resolve(call.func)
+    if fd is None:
+        return None
+    f, kind = fd
+    decos = [ast.unparse(d) for d in f.decorator_list]
+    if any(d not in ("staticmethod", "classmethod") for d in decos):
+        return None
+    a = f.args
+    if a.vararg or a.kwarg or a.posonlyargs or any(isinstance(x, ast.Starred) for x in call.args) \
+            or any(k.arg is None for k in call.keywords):
+        return None
+    params = [x.arg for x in a.args]
+    bound: Dict[str, ast.expr] = {}
+    if kind == "method" and "staticmethod" not in decos:
+        if not params:
+            return None
+        recv = call.func.value if isinstance(call.func, ast.Attribute) else None
+        if recv is None:
+            return None
+        bound[params[0]] = recv
+        params = params[1:]
+    if len(call.args) > len(params):
+        return None
+    for prm, arg in zip(params, call.args):
+        bound[prm] = arg
+    kwonly = [x.arg for x in a.kwonlyargs]
+    for k in call.keywords:
+        if k.arg in bound or k.arg not in params + kwonly:
+            return None
+        bound[k.arg] = k.value
+    defaults = dict(zip([x.arg for x in a.args][len(a.args) - len(a.defaults):], a.defaults))
+    defaults.update({x.arg: d for x, d in zip(a.kwonlyargs, a.kw_defaults) if d is not None})
+    for prm in params + kwonly:
+        if prm not in bound:
+            if prm not in defaults:
+                return None
+            bound[prm] = defaults[prm]
+    for n in ast.walk(f):
+        if isinstance(n, (ast.FunctionDef, ast.AsyncFunctionDef, ast.Lambda, ast.ClassDef, ast.Global, ast.Nonlocal)) and n is not f:
+            return None
+        if isinstance(n, ast.Name) and isinstance(n.ctx, (ast.Store, ast.Del)) and (n.id in bound or n.id == "ex"):
+            return None
+        if isinstance(n, ast.ExceptHandler) and n.name and (n.name in bound or n.name == "ex"):
+            return None
+
+    class Sub(ast.NodeTransformer):
+        def visit_Name(self, n):
+            if isinstance(n.ctx, ast.Load) and n.id in bound:
+                return ast.copy_location(ast.parse(ast.unparse(bound[n.id]), mode="eval").body, n)
+            return n
+
+    body = [st for st in f.body if not (isinstance(st, ast.Expr) and isinstance(st.value, ast.Constant)
+                                         and isinstance(st.value.value, str))]        # docstring
+    return [Sub().visit(ast.parse(ast.unparse(st)).body[0]) for st in body]
+
+
+def _handler_body_ops(h: ast.ExceptHandler, resolve=None) -> List[str]:
     name = h.name
 
     class Ren(ast.NodeTransformer):
@@ -250,9 +313,17 @@ def _handler_body_ops(h: ast.ExceptHandler) -> List[str]:
         if x not in out:
             out.append(x)
 
-    for st in h.body:
-        st = Ren().visit(ast.parse(ast.unparse(st)))
+    work: List[Tuple[ast.AST, bool]] = [(Ren().visit(ast.parse(ast.unparse(st))), False) for st in h.body]
+    while work:
+        st, inlined = work.pop(0)
         for n in ast.walk(st):
+            if isinstance(n, ast.Call) and not inlined and resolve is not None:
+                body = _inline_helper(n, resolve)
+                if body is not None:
+                    # the call itself is replaced by what the helper does; its argument expressions are still walked
+                    # here (they are evaluated in the handler)
+                    work.extend((b, True) for b in body)
+                    continue
             if isinstance(n, ast.Call):
                 f = _callee(n.func)
                 if f in ("str", "repr", "format", "sorted", "min", "max", "sum", "len", "int", "float", "list", "dict", "set", "tuple"):
@@ -261,7 +332,10 @@ def _handler_body_ops(h: ast.ExceptHandler) -> List[str]:
             elif isinstance(n, ast.Starred):
                 add("star:" + ast.unparse(n.value))
             elif isinstance(n, ast.Subscript):
-                add("sub:" + ast.unparse(n))
+                t = ast.unparse(n)
+                # `ex.args[0]` is allowed in a handler only because the whole-run check `args0:<site>` reads the handler's
+                # TEXT; inside a helper that check does not see it, so it is not accepted there
+                add("sub:" + t + ("@helper" if inlined and "args[0]" in t else ""))
             elif isinstance(n, (ast.BinOp, ast.AugAssign)):
                 add("op:" + type(n.op).__name__)
             elif isinstance(n, ast.UnaryOp) and not isinstance(n.op, ast.Not):
@@ -284,6 +358,20 @@ def handler_ops() -> List[Tuple[str, str]]:
     for file, scope in HANDLER_SCOPES:
         m = mods.setdefault(file, parse(file))
 
+        def resolver(path):
+            cls = next((c for c in m.body if isinstance(c, ast.ClassDef) and path and c.name == path[0]), None)
+
+            def resolve(fn: ast.expr):
+                if isinstance(fn, ast.Attribute) and isinstance(fn.value, ast.Name) and cls is not None \
+                        and fn.value.id in ("self", "cls", cls.name):
+                    hits = [x for x in cls.body if isinstance(x, ast.FunctionDef) and x.name == fn.attr]
+                    return (hits[0], "method") if len(hits) == 1 else None
+                if isinstance(fn, ast.Name):
+                    hits = [x for x in m.body if isinstance(x, ast.FunctionDef) and x.name == fn.id]
+                    return (hits[0], "function") if len(hits) == 1 else None
+                return None
+            return resolve
+
         def walk(node, path):
             for ch in ast.iter_child_nodes(node):
                 p = path + [ch.name] if isinstance(ch, (ast.ClassDef, ast.FunctionDef, ast.AsyncFunctionDef)) else path
@@ -291,7 +379,7 @@ def handler_ops() -> List[Tuple[str, str]]:
                     q = ".".join(path)
                     if q == scope or q.startswith(scope + "."):
                         for h in ch.handlers:
-                            for op in _handler_body_ops(h):
+                            for op in _handler_body_ops(h, resolver(path)):
                                 if (q, op) not in out:
                                     out.append((q, op))
                 walk(ch, p)
